@@ -94,7 +94,7 @@ def demoSchedule : List Act :=
     -- tx 0 validates and is finalized
     .claimVal 0, .valTs 0, .endScan 0, .finalize,
     -- tx 1's validation now fails: marks its write as estimate, rewinds, re-executes
-    .claimVal 1, .valTs 1, .valCheck 1 0, .endScan 1, .markOne 1 1, .endValMark 1, .tailTs 1, .tailLts 1,
+    .claimVal 1, .valTs 1, .valCheck 1 0, .endScan 1, .markOne 1 1, .endValMark 1, .tailTs 1,
     .claimExec 1, .execRead 1, .execFinish 1, .publishOne 1 1, .endPublish 1, .recordResult 1 false,
     .valTs 1, .valCheck 1 0, .endScan 1, .finalize, .commit, .commit ]
 
